@@ -130,6 +130,38 @@ fn c05(r: &mut Rep) {
             }
         }
     }
+    // pages of every size: the distance in pages fits a 32-bit usize far more often than the distance in bytes or 4 KiB units
+    fn pages_between<S: PageSize>(r: &mut Rep, pts: &[u64]) {
+        for &a in pts {
+            for &b in pts {
+                r.ev(true);
+                let (pa, pb) = (Page::<S>::containing_address(VirtAddr::new(a)), Page::<S>::containing_address(VirtAddr::new(b)));
+                let (sa, sb) = (pa.start_address().as_u64(), pb.start_address().as_u64());
+                let exp: (usize, Option<usize>) = if sb >= sa {
+                    match usize::try_from((pos(sb) - pos(sa)) / S::SIZE) {
+                        Ok(u) => (u, Some(u)),
+                        Err(_) => (usize::MAX, None),
+                    }
+                } else {
+                    (0, None)
+                };
+                let got = catch(|| Step::steps_between(&pa, &pb));
+                if got != Ok(exp) {
+                    r.viol(&format!("C05|Page<{}>|steps_between-wrong-on-a-32-bit-host", S::DEBUG_STR), &format!("pbetween32 {} {:#x} {:#x}", S::DEBUG_STR, a, b), &format!("{:x?} expected {:x?}", got, exp));
+                }
+                // mutual inverse where the count is representable
+                if let (_, Some(n)) = exp {
+                    if catch(|| Step::forward_checked(pa, n).map(|x| x.start_address().as_u64())) != Ok(Some(sb)) || catch(|| Step::backward_checked(pb, n).map(|x| x.start_address().as_u64())) != Ok(Some(sa)) {
+                        r.viol(&format!("C05|Page<{}>|not-mutually-inverse-on-a-32-bit-host", S::DEBUG_STR), &format!("pbetween32 {} {:#x} {:#x}", S::DEBUG_STR, a, b), "");
+                    }
+                }
+            }
+        }
+    }
+    let ppts: Vec<u64> = vec![0, 0x1000, 0x20_0000, 0x4000_0000, 0xffff_f000, 0x1_0000_0000, 0x123_4560_0000, 0x1124_ec00_0000, 0x7fff_ffff_f000, 0xffff_8000_0000_0000, 0xffff_8000_4000_0000, 0xffff_ffff_ffff_f000];
+    pages_between::<Size4KiB>(r, &ppts);
+    pages_between::<Size2MiB>(r, &ppts);
+    pages_between::<Size1GiB>(r, &ppts);
     for i in [0u16, 1, 255, 256, 510, 511] {
         for n in [0usize, 1, 2, 255, 256, 511, 512, 0xffff, 0x1_0000, 0xffff_ffff] {
             r.ev(true);
